@@ -22,6 +22,7 @@ real Python of wn/_add.py, wn/_db.py:
 from __future__ import annotations
 
 import ast
+import re
 import inspect
 import textwrap
 from pathlib import Path
@@ -97,48 +98,191 @@ def owned_chain(schema, table, seen):
     return False, f'{table}: no ownership rule (new table without lexicon_rowid?)'
 
 
+def connect_paths():
+    """Symbolic execution of wn._db.connect() on all of its paths.  Stand-ins: the module-level `pool` (membership is
+    a free Boolean; a connection found there was put there by an earlier connect(), induction hypothesis), wn.config
+    (database_path: a path whose is_file() is a free Boolean), sqlite3.connect (returns a recording connection),
+    _init_db / _check_schema_compatibility (recorded calls).  Returns [(outcome, returned value, event log, helper
+    stacks)]; helper functions that connect() calls are executed inline, so extracting one changes nothing."""
+    import sqlite3
+    import wn._db as D
+    from vc.pyvc.interp import SymMethod
+    from vc.pyvc.values import SObj
+    log, stacks = [], []
+
+    class Conn(SObj):
+        def __init__(self, name='conn'):
+            super().__init__(type('Conn', (), {}), name=name)
+
+        def vc_getattr(self, it, attr, node):
+            def call(i, a, k, n, attr=attr):
+                log.append((attr, self, list(a), dict(k)))
+                return None
+            return SymMethod(call, attr)
+
+        def vc_setattr(self, it, attr, val, node):
+            log.append(('setattr:' + attr, self, [val], {}))
+
+    class Pool(SObj):
+        def __init__(self):
+            super().__init__(type('Pool', (), {}), name='pool')
+            self.stored = None
+            self.pooled = Conn('pooled')
+
+        def vc_contains(self, it, item, node):
+            return True if self.stored is not None and item is self.stored[0] else mk('bool', 'pool_hit').z
+
+        def vc_getitem(self, it, idx, node):
+            return self.stored[1] if self.stored else self.pooled
+
+        def vc_setitem(self, it, idx, val, node):
+            self.stored = (idx, val)
+            log.append(('POOL-STORE', idx, [val], {}))
+
+    class PathStub(SObj):
+        def __init__(self):
+            super().__init__(type('PathStub', (), {}), name='dbpath')
+
+        def vc_getattr(self, it, attr, node):
+            if attr in ('is_file', 'exists'):
+                return SymMethod(lambda i, a, k, n: mk('bool', 'db_file_exists'), attr)
+            raise Unsupported(f'database path attribute {attr}')
+
+    class Cfg(SObj):
+        def __init__(self, path):
+            super().__init__(type('Cfg', (), {}), name='config')
+            self.path = path
+
+        def vc_getattr(self, it, attr, node):
+            if attr == 'database_path':
+                return self.path
+            if attr == 'allow_multithreading':
+                return mk('bool', 'allow_mt')
+            raise Unsupported(f'wn.config.{attr}')
+
+    class WnStub(SObj):
+        def __init__(self, cfg):
+            super().__init__(type('WnStub', (), {}), name='wn')
+            self.cfg = cfg
+
+        def vc_getattr(self, it, attr, node):
+            return self.cfg if attr == 'config' else getattr(wn, attr)
+
+    def run(it):
+        del log[:]
+        pool, path = Pool(), PathStub()
+        it.options['global_overrides'] = {('wn._db', 'pool'): pool, ('wn._db', 'wn'): WnStub(Cfg(path))}
+
+        def h_connect(i, a, k, n):
+            c = Conn()
+            log.append(('sqlite3.connect', c, list(a), dict(k)))
+            stacks.append([f.qualname for f in i.fn_stack])
+            return c
+        it.contracts[sqlite3.connect] = h_connect
+        r = it.call_function(D.connect, [], {})
+        return r, list(log), pool
+
+    def rec(name):
+        def h(it, a, k, n):
+            log.append((name, a[0] if a else None, list(a), dict(k)))
+            return None
+        return h
+    noop = lambda it, a, k, n: None     # noqa: E731
+    contracts = {D._init_db: rec('_init_db'), D._check_schema_compatibility: rec('_check_schema_compatibility')}
+    for lv in ('debug', 'info', 'warning', 'error'):
+        contracts[getattr(D.logger, lv)] = noop
+    outs = explore(run, contracts=contracts)
+    return outs, stacks
+
+
+_FK_ON = re.compile(r'^\s*pragma\s+foreign_keys\s*=\s*(on|1|true|yes)\s*;?\s*$', re.I)
+
+
 def pragma_obligations() -> list:
-    """PRAGMA foreign_keys = ON is executed on every connection before it enters the pool; sqlite3.connect is
-    called nowhere else in the package."""
+    """Every connection that connect() returns or pools was created with detect_types=PARSE_DECLTYPES and had PRAGMA
+    foreign_keys = ON executed on it first (all paths, symbolic execution); a new database file is initialised;
+    sqlite3.connect is called nowhere else in the package."""
+    import sqlite3
     obs = []
     fn = wn._db.connect
-    tree = ast.parse(textwrap.dedent(inspect.getsource(fn)))
-    body = tree.body[0].body
-    ok, why = False, 'no `if dbpath not in pool` block found'
-    for st in body:
-        if isinstance(st, ast.If):
-            seq = []
-            for s in st.body:
-                for n in ast.walk(s):
-                    if isinstance(n, ast.Call):
-                        seq.append(ast.unparse(n.func) + '(' + ', '.join(ast.unparse(a) for a in n.args)[:60] + ')')
-                    if isinstance(n, ast.Assign) and isinstance(n.targets[0], ast.Subscript) and \
-                            ast.unparse(n.targets[0].value) == 'pool':
-                        seq.append('POOL-STORE')
-            prag = [i for i, s in enumerate(seq) if s.startswith('conn.execute(') and 'foreign_keys = ON' in s]
-            store = [i for i, s in enumerate(seq) if s == 'POOL-STORE']
-            conn_calls = [i for i, s in enumerate(seq) if s.startswith('sqlite3.connect(')]
-            # straight-line: the pragma statement is a direct child of the if-body (not under a condition)
-            direct = any(isinstance(s, ast.Expr) and 'foreign_keys = ON' in ast.unparse(s) for s in st.body)
-            ok = bool(prag and store and conn_calls and direct and conn_calls[0] < prag[0] < store[0])
-            why = f'call order in connect(): {seq}'
-    obs.append(Obligation('wn._db.connect:db:foreign-keys-on', PROP, 'static', decided=ok, detail=why,
-                          functions=('wn._db.connect',), source=source_span(fn)))
-    # no other sqlite3.connect
+    cm = dict(prop=PROP, functions=('wn._db.connect',), source=source_span(fn))
+    outs, stacks = connect_paths()        # Unsupported propagates: exit 3, never a violation
+    fk_ok, fk_why, dt_ok, init_ok, mode_ok = True, '', True, True, True
+    n_new = 0
+    for o in outs:
+        if o.kind != 'return':
+            fk_ok, fk_why = False, f'connect() raises {o.exc.exc_type.__name__} on a path'
+            continue
+        r, log, pool = o.value
+        created = [e for e in log if e[0] == 'sqlite3.connect']
+        if not created:
+            if r is not pool.pooled:
+                fk_ok, fk_why = False, 'a path returns something that is neither a new nor the pooled connection'
+            continue
+        n_new += 1
+        conn = created[0][1]
+        names = [e[0] for e in log]
+        on_conn = [e for e in log if e[1] is conn and e[0] != 'sqlite3.connect']
+        first = on_conn[0] if on_conn else None
+        prag = bool(first and first[0] == 'execute' and first[2] and isinstance(first[2][0], str)
+                    and _FK_ON.match(first[2][0]))
+        stores = [e for e in log if e[0] == 'POOL-STORE']
+        if len(created) != 1 or not prag or r is not conn or not stores or any(e[2][0] is not conn for e in stores):
+            fk_ok = False
+            fk_why = fk_why or ('events on a pool miss: ' + ', '.join(
+                f"{e[0]}({e[2][0] if e[2] and isinstance(e[2][0], str) else ''})" for e in log))
+        if created[0][3].get('detect_types') != sqlite3.PARSE_DECLTYPES:
+            dt_ok = False
+        if any(n.startswith('setattr:') and n.split(':')[1] in ('isolation_level', 'autocommit') for n in names):
+            mode_ok = False
+        # initialised exactly when the file did not exist
+        s = z3.Solver()
+        s.add(*o.pc)
+        s.add(z3.Bool('db_file_exists'))
+        existed_possible = s.check() == z3.sat
+        if ('_init_db' in names) == existed_possible:
+            init_ok = False
+    if n_new == 0:
+        fk_ok, fk_why = False, 'no path creates a connection'
+    obs.append(Obligation('wn._db.connect:db:foreign-keys-on', decided=fk_ok, kind='post',
+                          detail=fk_why or f'{len(outs)} paths: a new connection runs PRAGMA foreign_keys = ON first, is '
+                                           'stored in the pool and returned; a pool hit returns the pooled connection',
+                          **cm))
+    obs.append(Obligation('wn._db.connect:converters:detect-types', decided=dt_ok, kind='post',
+                          detail='sqlite3.connect(..., detect_types=PARSE_DECLTYPES) on every path', **cm))
+    obs.append(Obligation('wn._db.connect:db:init-iff-new-file', decided=init_ok, kind='post',
+                          detail='_init_db(conn) is called exactly on the paths where the database file did not exist',
+                          **cm))
+    obs.append(Obligation('wn._db.connect:db:transaction-mode-untouched', decided=mode_ok, kind='post',
+                          detail='connect() does not assign isolation_level / autocommit', **cm))
+    # no other sqlite3.connect: every call site is in connect() or in a helper executed (only) on behalf of connect()
+    allowed = {q for st in stacks for q in st}
+    allowed_names = {q.split('.')[-1] for q in allowed}
     others = []
     for path in sorted((REPO / 'wn').glob('*.py')):
         t = ast.parse(path.read_text())
+        funcs = [f for f in ast.walk(t) if isinstance(f, (ast.FunctionDef, ast.AsyncFunctionDef))]
+
+        def enclosing(n):
+            best = None
+            for f in funcs:
+                if f.lineno <= n.lineno <= (f.end_lineno or f.lineno) and (best is None or f.lineno >= best.lineno):
+                    best = f
+            return best.name if best else None
         for n in ast.walk(t):
-            if isinstance(n, ast.Call) and ast.unparse(n.func) in ('sqlite3.connect', 'sqlite3.Connection'):
-                fnname = None
-                for f in ast.walk(t):
-                    if isinstance(f, ast.FunctionDef) and f.lineno <= n.lineno <= (f.end_lineno or f.lineno):
-                        fnname = f.name
-                if not (path.name == '_db.py' and fnname == 'connect'):
+            if not isinstance(n, ast.Call):
+                continue
+            callee = ast.unparse(n.func)
+            if callee in ('sqlite3.connect', 'sqlite3.Connection'):
+                if not (path.name == '_db.py' and enclosing(n) in allowed_names):
                     others.append(f'{path.name}:{n.lineno}')
+            elif callee.split('.')[-1] in allowed_names - {'connect'} and path.name == '_db.py' \
+                    and enclosing(n) not in allowed_names:
+                others.append(f'{path.name}:{n.lineno} calls the helper {callee} outside connect()')
     obs.append(Obligation('wn:db:single-connect', PROP, 'static', decided=not others,
                           detail='other sqlite3.connect calls: ' + ', '.join(others) if others else
-                          'sqlite3.connect only in wn._db.connect', functions=('wn._db.connect',)))
+                          'sqlite3.connect only in wn._db.connect (and helpers executed on its behalf: '
+                          f'{sorted(allowed_names)})', functions=('wn._db.connect',)))
     return obs
 
 
